@@ -30,7 +30,7 @@ _FUNC_ASSUME = ["TLC and the community modules are correct",
                 "the transcription in spec/ was made by reading the code; the conformance step (real function on every case, output compared by TLC) is what binds it",
                 "the concretisation of abstract inputs in harness/src/func.rs",
                 "small-scope hypothesis for the exhaustive part; random larger cases beyond it"]
-for _p in ("C29", "C30", "C31", "C32", "C35", "C37"):
+for _p in ("C29", "C30", "C31", "C32", "C34", "C35", "C37"):
     CHECKS[_p] = ("eng_func", "model_checking", _FUNC_ASSUME)
 
 
